@@ -7,8 +7,8 @@
      clause 0 inside the proved domain, otherwise the first failed domain clause (names in
             tools/props/c02_index.py:CLAUSES). *)
 From Coq Require Import ZArith List Bool.
-From Verif Require Import Py PyExt PyIndex G_slicing S_indexing PySlice Slicing Shape COO GCXS NpIndex
-     CooIndex GcxsIndex Judge SArr.
+From Verif Require Import Py PyExt PyIndex G_slicing S_indexing PySlice Slicing Shape COO GCXS Convert NpIndex
+     CooIndex GcxsIndex GcxsGetitem DokGetitem Judge SArr.
 Import ListNotations.
 Open Scope Z_scope.
 
@@ -136,6 +136,49 @@ Definition model_kind (fmt : Z) (unsigned : bool) (input out : sarr) (ix : index
   end.
 
 (* (format, unsigned coords?, input as the implementation holds it, index, x[index], todense()[index] by NumPy) *)
+(* the GCXS wrapper: exact representation (data, indices, indptr, compressed axes, shape, fill) *)
+Definition gcxs_eqb (a b : gcxs Z) : bool :=
+  zl_eqb (g_shape a) (g_shape b) && zl_eqb (g_caxes a) (g_caxes b) && zl_eqb (g_data a) (g_data b)
+  && zl_eqb (g_indices a) (g_indices b) && zl_eqb (g_indptr a) (g_indptr b) && (g_fill a =? g_fill b).
+
+Definition ggres_matches (m : res (ggres Z)) (out : sarr) : bool :=
+  match m, out with
+  | Raise e, SExc e' => exc_eqb e e'
+  | Ok (GGScalar v), SScalar w => v =? w
+  | Ok (GGArr y), SGcxs y' => gcxs_eqb y y'
+  | _, _ => false
+  end.
+
+Definition gmodel_kind (fmt : Z) (unsigned : bool) (input out : sarr) (ix : index) : Z :=
+  match input with
+  | SGcxs g =>
+    if (fmt =? fmt_gcxs) && negb unsigned && gcxs_wfb g && strictly_increasing (g_caxes g)
+    then if ggres_matches (gcxs_getitem Z Z.eqb Z.add kf_all g ix) out then 0 else 1
+    else 0
+  | _ => 0
+  end.
+
+(* the DOK wrapper: exact dict items (sorted by key), shape, fill *)
+Definition items_eqb (a b : list (idx * Z)) : bool :=
+  list_eqb (fun p q : idx * Z => zl_eqb (fst p) (fst q) && (snd p =? snd q)) a b.
+
+Definition dres_matches (m : res (dres Z)) (out : sarr) : bool :=
+  match m, out with
+  | Raise e, SExc e' => exc_eqb e e'
+  | Ok (DScalar v), SScalar w => v =? w
+  | Ok (DArr sh it f), SDok sh' it' f' => zl_eqb sh sh' && items_eqb it it' && (f =? f')
+  | _, _ => false
+  end.
+
+Definition dmodel_kind (fmt : Z) (input out : sarr) (ix : index) : Z :=
+  match input with
+  | SDok sh it f =>
+    if (fmt =? fmt_dok) && forallb (fun kv => in_rangeb sh (fst kv)) it
+    then if dres_matches (dok_getitem Z Z.eqb Z.add kf_all sh it f ix) out then 0 else 1
+    else 0
+  | _ => 0
+  end.
+
 Definition model_oob (input : sarr) (ix : index) : bool :=
   match input with
   | SCoo c => match getitem kf_all c ix with Raise RuntimeError => true | _ => false end
@@ -154,7 +197,7 @@ Definition judge_getitem (c : gcase) : Z :=
     if in_grammar ix && negb (spec_kind input npout sh flat ix =? 0) then 9 + 10 * cl
     else if negb (k =? 0) then k + 10 * cl
     else
-      let mk := model_kind fmt unsigned input out ix in
+      let mk := model_kind fmt unsigned input out ix + gmodel_kind fmt unsigned input out ix + dmodel_kind fmt input out ix in
       if mk =? 0 then 0
       else if model_oob input ix then 1 + 10 * 14    (* D30: the model met an unchecked out-of-bounds access *)
       else mk + 10 * cl
@@ -198,7 +241,8 @@ Inductive kcase :=
 | KFilter (starts stops : list Z) (pts : list idx) (inds : list triple) (m : list Z)
 | KJoin (starts stops ostarts ostops : list Z)
 | KSlicing (arr_indices starts ends col : list Z) (pos cols indptr : list Z)
-| KArray (arr_indices starts ends col : list Z) (pos cols indptr : list Z).
+| KArray (arr_indices starts ends col : list Z) (pos cols indptr : list Z)
+| KFlat (inds : list (list Z)) (sh : list Z) (out : list Z).
 
 Definition natl (l : list Z) : list nat := map Z.to_nat l.
 Definition zl (l : list nat) : list Z := map Z.of_nat l.
@@ -241,4 +285,5 @@ Definition judge_kernel (c : kcase) : Z :=
     if sel_eqb (slicing_selection (code_path ai rows col) ai rows col) pos cols indptr then 0 else 1
   | KArray ai starts ends col pos cols indptr =>
     if sel_eqb (array_selection ai (mk_pairs starts ends) col) pos cols indptr then 0 else 1
+  | KFlat inds sh out => if zl_eqb (convert_to_flat inds sh) out then 0 else 1
   end.
